@@ -57,6 +57,7 @@ type Task struct {
 	sim       *Sim
 	Ops       int // number of sim operations performed by this task
 	held      map[Holdable]int
+	counted   bool // the pending park is a crash-countable operation
 }
 
 // Holdable is a primitive a task can hold; it is force-released when the
@@ -433,6 +434,21 @@ func Yield(site string) {
 	t.park(site)
 }
 
+// YieldOp is Yield for operations that count as crash points of the node
+// (service calls and store writes).
+func YieldOp(site string) {
+	s := Cur()
+	if s == nil {
+		return
+	}
+	t := s.self()
+	if t == nil {
+		return
+	}
+	t.counted = true
+	t.park(site)
+}
+
 func (t *Task) park(site string) {
 	s := t.sim
 	s.mu.Lock()
@@ -781,7 +797,8 @@ func (s *Sim) RunUntil(deadline time.Duration, cond func() bool) string {
 		}
 		t := c.t
 		// crash point?
-		if t.Node >= 0 {
+		if t.Node >= 0 && t.counted {
+			t.counted = false
 			s.mu.Lock()
 			s.nodeOps[t.Node]++
 			k := s.nodeOps[t.Node]
